@@ -154,6 +154,12 @@ def check(c, x, case=None):
     rd = refcodec.ref_decode_string(x)
     if d != rd:
         raise Violation("decode_matches_table", case, rd.hex(), d.hex())
+    # the transform is a function of its input: repeating a call (after the calls above, which
+    # also handed it the results of the first pass) must give the same answer
+    for name, f, first in (("encode", enc, e), ("decode", dec, d), ("encode", enc, e)):
+        again = _apply(f, x, case, name + " (repeated)")
+        if again != first:
+            raise Violation("same_input_same_output", case, first.hex(), again.hex(), f"{name} repeated")
 
 
 def _in_domain2(x, maxlen):
